@@ -736,7 +736,11 @@ def _is_fancy_key(st: _State, k) -> bool:
 PUBLIC_CLASSES = ("tensor", "sptensor", "ktensor", "ttensor", "tenmat", "sptenmat", "sumtensor")
 ENTRY_POINTS = ("pyttb.cp_als.cp_als", "pyttb.cp_apr.cp_apr", "pyttb.cp_apr.tt_cp_apr_mu", "pyttb.cp_apr.tt_cp_apr_pdnr", "pyttb.cp_apr.tt_cp_apr_pqnr",
                 "pyttb.hosvd.hosvd", "pyttb.tucker_als.tucker_als", "pyttb.gcp_opt.gcp_opt", "pyttb.cp_apr.tt_loglikelihood",
-                "pyttb.gcp.fg.evaluate", "pyttb.gcp.fg_est.estimate", "pyttb.gcp.fg_est.estimate_helper", "pyttb.khatrirao.khatrirao")
+                "pyttb.gcp.fg.evaluate", "pyttb.gcp.fg_est.estimate", "pyttb.gcp.fg_est.estimate_helper", "pyttb.khatrirao.khatrirao",
+                # the solvers behind gcp_opt (gcp_opt's own clauses are exempt for imprecision, so the solve methods carry them)
+                "pyttb.gcp.optimizers.StochasticSolver.solve", "pyttb.gcp.optimizers.LBFGSB.solve",
+                "pyttb.gcp.samplers.nonzeros", "pyttb.gcp.samplers.zeros", "pyttb.gcp.samplers.uniform", "pyttb.gcp.samplers.semistrat",
+                "pyttb.gcp.samplers.stratified")
 
 #: may-aliasing that the path-insensitive analysis cannot exclude; decided by the bounded stand-in c05.*
 IMPRECISION_EXEMPT = {
